@@ -19,25 +19,32 @@ var (
 // validJournal is true if there is a valid -journal file present.
 // `file` should the name of the journal file.
 func validJournal(file string) (bool, error) {
+	valid, _, err := readJournal(file)
+	return valid, err
+}
+
+// readJournal is validJournal, and also gives the nonce from the journal
+// header. SQLite picks a new random nonce for every journal it writes.
+func readJournal(file string) (bool, uint32, error) {
 	fh, err := os.Open(file)
 	if err != nil {
 		if os.IsNotExist(err) {
-			return false, nil
+			return false, 0, nil
 		}
 		// maybe it's a directory, or no read permission.
-		return false, err
+		return false, 0, err
 	}
 	defer fh.Close()
 	var b = [journalHeader]byte{}
 	if n, err := fh.Read(b[:]); err != nil || n != journalHeader {
 		// a zero length file is allowed
-		return false, nil
+		return false, 0, nil
 	}
 
 	jh := struct {
 		Magic      [8]byte
 		_          int32 // Page Count
-		_          int32 // Nonce
+		Nonce      uint32
 		_          int32 // Initial page count
 		SectorSize int32 // Disk sector size
 	}{}
@@ -46,22 +53,22 @@ func validJournal(file string) (bool, error) {
 		binary.BigEndian,
 		&jh,
 	); err != nil {
-		return false, nil
+		return false, 0, nil
 	}
 
 	if jh.Magic != journalMagic {
-		return false, nil
+		return false, 0, nil
 	}
 
 	if jh.SectorSize < 512 || jh.SectorSize > 1<<16 {
 		// sanity check
-		return false, nil
+		return false, 0, nil
 	}
 
 	// file should have at least a single full journal page
 	var zeros = make([]byte, jh.SectorSize-journalHeader)
 	if n, err := fh.Read(zeros); err != nil || n != len(zeros) {
-		return false, nil
+		return false, 0, nil
 	}
-	return true, nil
+	return true, jh.Nonce, nil
 }
